@@ -279,6 +279,7 @@ def set_function(name, params, elem, elem_type, body):
                 consts = [c for v in pvs.values() for c in eng.reg.consts_of(v)] + eng.reg.consts_of(ev_)
                 app = z3.Select(state["f"](*[v.x for v in pvs.values()]), to_term(ev_))
                 eng.axioms_used[name] = z3.ForAll(consts, app == b, patterns=[app])
+                eng.__dict__.setdefault("axiom_defs", {})[name] = state["f"].name()
             finally:
                 eng.bound, eng.spec, eng.qdepth = saved_bound, saved_spec, saved_q
         return V(("bag", et), state["f"](*terms))
